@@ -51,7 +51,7 @@ impl ShaGenerator {
 
         let hasher = match current_state {
             Some(jh) => jh.await??,
-            None => return Ok(MerkleHash::default()),
+            None => Sha256::default(),
         };
 
         let sha256 = hasher.finalize();
